@@ -15,14 +15,16 @@ LEVEL = {'C11': 'exploration', 'C12': 'exploration', 'C15': 'exploration',
 PLANS = {
     'C16': {'quick': [('seq', 2500), ('threads', 2500),
                       ('threads_toggle', 1500), ('long', 250),
-                      ('long_faulty', 150), ('threads_mirror', 1200)],
+                      ('long_faulty', 150), ('threads_mirror', 1200),
+                      ('capacity', 16)],
             'thorough': [('seq', 60000), ('threads', 70000),
                          ('threads_toggle', 50000), ('long', 6000),
-                         ('long_faulty', 4000), ('threads_mirror', 40000)]},
+                         ('long_faulty', 4000), ('threads_mirror', 40000),
+                         ('capacity', 500)]},
     'C12': {'quick': [('seq', 2500), ('threads', 2000),
-                      ('threads_mirror', 1500)],
+                      ('threads_mirror', 1500), ('capacity', 12)],
             'thorough': [('seq', 60000), ('threads', 60000),
-                         ('threads_mirror', 40000)]},
+                         ('threads_mirror', 40000), ('capacity', 400)]},
     'C15': {'quick': [('seq', 3000), ('threads', 2000), ('boot', 48),
                       ('threads_mirror', 800)],
             'thorough': [('seq', 80000), ('threads', 60000), ('boot', 600),
@@ -109,10 +111,17 @@ def ensure_pristine(trace):
 
 
 def pre_execute(check, trace):
-    ensure_pristine(trace)
+    if trace.get('world') != 'A':
+        ensure_pristine(trace)
 
 
 def generate(check, population, rng, tier):
+    if population == 'capacity':
+        # World A's fork-and-explore population, with the producer side
+        # (construct + marshal of every frame, again, inside the explored
+        # windows) and the streamed decodes judged for this property
+        from sim import gen_a
+        return gen_a.gen_trace(rng, check, 'capacity', tier)
     if check not in CATALOGUE:
         prepare(check, tier, None)
     if population == 'sweep':
@@ -126,6 +135,9 @@ def generate(check, population, rng, tier):
 
 
 def execute(check, trace, keep_log=False):
+    if trace.get('world') == 'A':
+        from sim import check_a
+        return check_a.execute(check, trace, keep_log)
     # (the integer sweep is judged by the ladder model alone)
     ensure_pristine(trace)
     if trace.get('population') == 'boot':
@@ -216,6 +228,9 @@ class _BootShim:
 
 
 def sample_view(trace, res):
+    if trace.get('world') == 'A':
+        from sim import check_a
+        return check_a.sample_view(trace, res)
     if trace.get('population') == 'boot':
         return {'population': 'boot', 'zone_at_interpreter_start':
                 trace['boot'],
@@ -294,6 +309,9 @@ def _drop_thread(trace, t):
 
 
 def shrink(check, trace, cls, vbuf=None, max_execs=1500, max_wall=None):
+    if trace.get('world') == 'A':
+        from sim import check_a
+        return check_a.shrink(check, trace, cls, None, max_execs, max_wall)
     import time
     max_wall = max_wall or float(os.environ.get('VERIF_SHRINK_S', '60'))
     state = {'n': 0, 't0': time.time()}
